@@ -4,6 +4,7 @@ import (
 	"go/ast"
 	"go/token"
 	"go/types"
+	"golang.org/x/tools/go/cfg"
 	"reflect"
 	"regexp"
 	"sort"
@@ -425,12 +426,10 @@ func checkShadowedCaptures(c *Ctx, rule string, pkgs ...string) int {
 					if !ok || nm.Name == "_" {
 						continue
 					}
-					if _, isStruct := v.Type().Underlying().(*types.Struct); !isStruct {
-						if _, isBasic := v.Type().Underlying().(*types.Basic); !isBasic {
-							if _, isSlice := v.Type().Underlying().(*types.Slice); !isSlice {
-								continue
-							}
-						}
+					switch v.Type().Underlying().(type) {
+					case *types.Struct, *types.Basic, *types.Slice, *types.Interface, *types.Pointer, *types.Map:
+					default:
+						continue
 					}
 					cands = append(cands, cand{v, nm.Pos()})
 				}
@@ -2231,4 +2230,628 @@ func init() {
 		Old:    "metaRe = regexp.MustCompile(`^\\.datamon/(.*)\\.yaml$`)",
 		New:    "metaRe = regexp.MustCompile(`(?:^|/)\\.datamon/(.*)\\.yaml$`)",
 		Expect: "meta-regexp-anchored"})
+}
+
+// checkScanPrefixesClosed (C07, C08, C09, C10 …; pooled): every listing scans the store under a prefix built by a
+// GetArchivePathPrefixTo* function; the prefix of repository "exp" must end with the separator, or the scan also returns
+// the keys of "exp-2" and "experiment" (and the operations driven by the listing — delete, rename, squash — act on
+// another repository's objects). The builders are evaluated abstractly (no code is run), as in C20.
+func checkScanPrefixesClosed(c *Ctx, rule string) {
+	p := c.P
+	var pids []string
+	for pid := range prefixBuilders {
+		pids = append(pids, pid)
+	}
+	sort.Strings(pids)
+	for _, pid := range pids {
+		pf := p.FuncOpt(pid)
+		if pf == nil {
+			continue
+		}
+		pts, why := evalBuilder(p, pf)
+		if why != "" || len(pts) == 0 {
+			c.fail(rule, pid, p.Pos(pf.Decl.Pos()), "the listing prefix built by "+pid+" can no longer be evaluated ("+why+"): that it ends with '/' — so that a scan of one repository does not return the keys of another whose name extends it — is not established")
+			continue
+		}
+		ps, okNP := instNoOpt(pts, sampleVals)
+		if !okNP {
+			c.fail(rule, pid, p.Pos(pf.Decl.Pos()), "the listing prefix built by "+pid+" evaluates to several templates: that it ends with '/' is not established")
+			continue
+		}
+		c.check(strings.HasSuffix(ps, "/"), rule, pid, p.Pos(pf.Decl.Pos()), "`"+pts[0].String()+"` ends with the separator",
+			"prefix `"+pts[0].String()+"` does not end with '/': a listing of repo \"exp\" also returns the keys of \"exp-2\" and \"experiment\"")
+	}
+}
+
+// checkEntryStringsKeyedByName (C21, pooled): the per-bundle / per-database strings are collected in a map keyed by the
+// entry's Name as given, one entry per element of the input, skipping none: the assignment into the map is indexed by
+// the Name field of the range variable itself and guarded by nothing but "no error so far".
+func checkEntryStringsKeyedByName(c *Ctx, rule string) {
+	p := c.P
+	for _, fid := range []string{"pkg/sidecar/param.fuseParamsBundleStrings", "pkg/sidecar/param.pgParamsDatabaseStrings"} {
+		f := p.Func(fid)
+		info := f.Info()
+		n := 0
+		ast.Inspect(f.Decl.Body, func(nd ast.Node) bool {
+			rs, ok := nd.(*ast.RangeStmt)
+			if !ok || rs.Value == nil {
+				return true
+			}
+			vid, ok := rs.Value.(*ast.Ident)
+			if !ok {
+				return true
+			}
+			rv, _ := info.Defs[vid].(*types.Var)
+			if rv == nil {
+				return true
+			}
+			ast.Inspect(rs.Body, func(m ast.Node) bool {
+				as, ok := m.(*ast.AssignStmt)
+				if !ok || len(as.Lhs) != 1 {
+					return true
+				}
+				ix, ok := ast.Unparen(as.Lhs[0]).(*ast.IndexExpr)
+				if !ok {
+					return true
+				}
+				if _, isMap := info.TypeOf(ix.X).Underlying().(*types.Map); !isMap {
+					return true
+				}
+				n++
+				sel, isSel := ast.Unparen(ix.Index).(*ast.SelectorExpr)
+				okKey := isSel && sel.Sel.Name == "Name" && isVar(info, sel.X, rv)
+				c.check(okKey, rule, fid+":key#"+itoa(n), p.Pos(as.Pos()), "the entry's string is stored under its Name as given",
+					"the string of an entry is stored under `"+exprString(ix.Index)+"`, not under the entry's Name as given: two names can land on the same key (one entry silently replaces the other) and the generated variable no longer carries the name")
+				atoms, _ := atomsAt(f, f.Decl.Body, as.Pos())
+				var extra []string
+				for lit, a := range atoms {
+					if !isNilTest(info, a.Expr) {
+						extra = append(extra, lit)
+					}
+				}
+				sort.Strings(extra)
+				c.check(len(extra) == 0, rule, fid+":every-entry#"+itoa(n), p.Pos(as.Pos()), "every entry of the input gets its string",
+					"an entry gets its string only when `"+strings.Join(extra, " && ")+"`: the parameters of the entries that fail this test are dropped without an error, so the variables do not decode back to what was given")
+				return true
+			})
+			return true
+		})
+		if n == 0 {
+			c.shape3(rule, fid, "no per-entry assignment into the result map found")
+		}
+	}
+}
+
+// checkDiamondDescriptorsNeverDeleted (C07, C12; pooled): the listing of diamonds and splits pairs each done descriptor
+// with its running twin (mergeKeys emits a done key once the running key of the same object has been seen): both
+// descriptors stay for the life of the repository's diamond. Nothing in pkg/core deletes a diamond or split descriptor.
+func checkDiamondDescriptorsNeverDeleted(c *Ctx, rule string) {
+	p := c.P
+	n := 0
+	for _, f := range p.FuncsIn("pkg/core") {
+		if f.Decl.Body == nil {
+			continue
+		}
+		info := f.Info()
+		k := 0
+		ast.Inspect(f.Decl.Body, func(nd ast.Node) bool {
+			call, ok := nd.(*ast.CallExpr)
+			if !ok || len(call.Args) != 2 || !strings.HasSuffix(calleeID(info, call), "Store.Delete") {
+				return true
+			}
+			kind := resolveKeyKind(f, call.Args[1], 0)
+			n++
+			if strings.Contains(kind, "diamond-descriptor") || strings.Contains(kind, "split-descriptor") {
+				k++
+				c.fail(rule, "pkg/core.mergeKeys:descriptor-deleted-by:"+strings.TrimPrefix(f.ID, "pkg/core.")+"#"+itoa(k), p.Pos(call.Pos()),
+					f.ID+" deletes a "+kind+": listings pair the done descriptor of a diamond or split with its running twin, so an object left with one of the two is no longer listed (or is listed in the wrong state) although it can still be fetched by ID")
+			}
+			return true
+		})
+	}
+	// positive control: the delete sites of pkg/core were looked at
+	if f := p.FuncOpt("pkg/core.mergeKeys"); f != nil && n > 0 {
+		c.ok(rule, f.ID+":descriptor-deleters", p.Pos(f.Decl.Pos()), itoa(n)+" delete sites of pkg/core classified: none names a diamond or split descriptor")
+	}
+}
+
+// checkFetchersTestErrorFirst (C07, C09 …; pooled): in the fetch stage of every listing (fetchRepos, fetchBundles, …)
+// a received key batch is looked at for its error before anything else decides to move on: every `continue` of the
+// receive loop is reached only where the batch's error is known to be nil. An "empty page, next" shortcut placed before
+// the error test skips the failed page (an error event carries no keys) and the listing ends early with no error.
+func checkFetchersTestErrorFirst(c *Ctx, rule string) {
+	p := c.P
+	for _, lp := range listPipelines {
+		f := p.FuncOpt(lp.fetchFn)
+		if f == nil || f.Decl.Body == nil {
+			continue
+		}
+		info := f.Info()
+		n := 0
+		ast.Inspect(f.Decl.Body, func(nd ast.Node) bool {
+			if _, isLit := nd.(*ast.FuncLit); isLit {
+				return false
+			}
+			br, ok := nd.(*ast.BranchStmt)
+			if !ok || br.Tok != token.CONTINUE {
+				return true
+			}
+			n++
+			atoms, _ := atomsAt(f, f.Decl.Body, br.Pos())
+			okErr := false
+			for _, at := range atoms {
+				be, ok := ast.Unparen(at.Expr).(*ast.BinaryExpr)
+				if !ok || !(isNil(info, be.X) || isNil(info, be.Y)) {
+					continue
+				}
+				other := be.X
+				if isNil(info, be.X) {
+					other = be.Y
+				}
+				if t := info.TypeOf(other); t == nil || !isErrorType(t) {
+					continue
+				}
+				if _, isField := ast.Unparen(other).(*ast.SelectorExpr); !isField {
+					continue
+				}
+				if (be.Op == token.EQL && !at.Neg) || (be.Op == token.NEQ && at.Neg) {
+					okErr = true
+				}
+			}
+			c.check(okErr, rule, lp.fetchFn+":continue#"+itoa(n), p.Pos(br.Pos()), "the batch's error is known to be nil where the loop moves on",
+				lp.fetchFn+" moves on to the next key batch without having looked at this batch's error: a failed page of keys (which carries no keys) is skipped, and the listing ends truncated with a nil error")
+			return true
+		})
+	}
+}
+
+// checkMetadataReadWhole (C11, pooled): metaObject.readMetadata returns the whole object: ReadAll is given the reader
+// the store returned, nothing wrapped around it (a size cap truncates a long index file silently; the cut YAML still
+// parses, so entries are dropped with no error).
+func checkMetadataReadWhole(c *Ctx, rule string) {
+	p := c.P
+	f := p.Func("pkg/core.metaObject.readMetadata")
+	info := f.Info()
+	n := 0
+	ast.Inspect(f.Decl.Body, func(nd ast.Node) bool {
+		call, ok := nd.(*ast.CallExpr)
+		if !ok || len(call.Args) != 1 {
+			return true
+		}
+		if id := calleeID(info, call); id != "io/ioutil.ReadAll" && id != "io.ReadAll" {
+			return true
+		}
+		n++
+		okArg := false
+		if id, ok := ast.Unparen(call.Args[0]).(*ast.Ident); ok {
+			if v, ok := info.Uses[id].(*types.Var); ok {
+				defs := defsOfVarWithIndex(f, v)
+				if len(defs) == 1 && defs[0].rhs != nil && defs[0].index == 0 {
+					if rc, ok := ast.Unparen(defs[0].rhs).(*ast.CallExpr); ok && strings.HasSuffix(calleeID(info, rc), "Store.Get") {
+						okArg = true
+					}
+				}
+			}
+		}
+		c.check(okArg, rule, callKey(f, call), p.Pos(call.Pos()), "the object is read to its end from the store's reader",
+			"readMetadata reads `"+exprString(call.Args[0])+"`, not the reader the store returned: an object longer than what that wrapper lets through is truncated without an error (a cut file list still parses, its tail is dropped)")
+		return true
+	})
+	if n == 0 {
+		c.shape3(rule, f.ID, "readMetadata no longer calls ReadAll")
+	}
+}
+
+// checkProtocolSendsUnconditional (C05, C04, C15; pooled): a worker of the download / upload protocols hands its result
+// (or its error) to the collector with a plain send; the collector counts on one message per worker. A send placed in a
+// select next to `<-ctx.Done()` is dropped when the context ends first, and the collector — which does not watch the
+// context — goes on to "done" with entries or an error missing.
+func checkProtocolSendsUnconditional(c *Ctx, rule string, pkgs ...string) {
+	p := c.P
+	for _, pk := range pkgs {
+		for _, f := range p.FuncsIn(pk) {
+			if f.Decl.Body == nil {
+				continue
+			}
+			info := f.Info()
+			k := 0
+			ast.Inspect(f.Decl.Body, func(nd ast.Node) bool {
+				sel, ok := nd.(*ast.SelectStmt)
+				if !ok {
+					return true
+				}
+				var send *ast.SendStmt
+				ctxDone := false
+				for _, cl := range sel.Body.List {
+					cc := cl.(*ast.CommClause)
+					switch s := cc.Comm.(type) {
+					case *ast.SendStmt:
+						// a field of one of the protocol's channel bundles (…Chans structs)
+						if fs, ok := ast.Unparen(s.Chan).(*ast.SelectorExpr); ok {
+							if t := info.TypeOf(fs.X); t != nil && strings.HasSuffix(namedTypeID(derefType(t)), "Chans") {
+								send = s
+							}
+						}
+					case *ast.ExprStmt:
+						if u, ok := ast.Unparen(s.X).(*ast.UnaryExpr); ok && u.Op == token.ARROW {
+							if call, ok := ast.Unparen(u.X).(*ast.CallExpr); ok && calleeID(info, call) == "context.Context.Done" {
+								ctxDone = true
+							}
+						}
+					}
+				}
+				if send != nil && ctxDone {
+					k++
+					c.fail(rule, f.ID+":send#"+itoa(k), p.Pos(send.Pos()),
+						"`"+exprString(send)+"` is one alternative of a select that also waits for the context's end: when the context ends first the message is dropped, and the collector (which counts one message per worker and does not watch the context) completes with entries or an error missing")
+				}
+				return true
+			})
+		}
+	}
+	if f := p.FuncOpt("pkg/core.downloadBundleFileListFile"); f != nil {
+		c.ok(rule, f.ID, p.Pos(f.Decl.Pos()), "protocol sends are unconditional")
+	}
+}
+
+func derefType(t types.Type) types.Type {
+	if pt, ok := t.(*types.Pointer); ok {
+		return pt.Elem()
+	}
+	return t
+}
+
+// checkNoGlobalKsuidSource (C19, pooled): tokens are KSUIDs whose random half comes from the library's default source
+// (crypto/rand): nothing in the repository replaces it (ksuid.SetRand): a seeded generator gives two writer processes
+// started in the same second the same tokens.
+func checkNoGlobalKsuidSource(c *Ctx, rule string) {
+	p := c.P
+	n := 0
+	for _, pk := range p.All {
+		if pk.TypesInfo == nil {
+			continue
+		}
+		info := pk.TypesInfo
+		for _, file := range pk.Syntax {
+			ast.Inspect(file, func(nd ast.Node) bool {
+				if call, ok := nd.(*ast.CallExpr); ok && strings.HasSuffix(calleeID(info, call), "ksuid.SetRand") {
+					n++
+					c.fail(rule, "pkg/wal.WAL.getToken:ksuid-source#"+itoa(n), p.Pos(call.Pos()),
+						pk.PkgPath+" replaces the random source of the ksuid library: the uniqueness of WAL tokens (and of every other KSUID of the process) across writers rests on that source")
+				}
+				return true
+			})
+		}
+	}
+	if f := p.FuncOpt("pkg/wal.WAL.getToken"); f != nil {
+		c.ok(rule, f.ID+":ksuid-source", p.Pos(f.Decl.Pos()), "the ksuid library's random source is left alone")
+	}
+}
+
+// checkWALPoolSized (C19, pooled): the read pool of a WAL is a buffered channel whose capacity is a positive constant
+// (an unbuffered pool blocks the first read forever): the capacity given to make is a constant.
+func checkWALPoolSized(c *Ctx, rule string) {
+	p := c.P
+	n := 0
+	for _, f := range p.FuncsIn("pkg/wal") {
+		if f.Decl.Body == nil {
+			continue
+		}
+		info := f.Info()
+		ast.Inspect(f.Decl.Body, func(nd ast.Node) bool {
+			as, ok := nd.(*ast.AssignStmt)
+			if !ok || len(as.Lhs) != 1 || len(as.Rhs) != 1 {
+				return true
+			}
+			sel, ok := ast.Unparen(as.Lhs[0]).(*ast.SelectorExpr)
+			if !ok || sel.Sel.Name != "connectionControl" {
+				return true
+			}
+			n++
+			okCap := false
+			if call, ok := ast.Unparen(as.Rhs[0]).(*ast.CallExpr); ok && calleeID(info, call) == "builtin.make" && len(call.Args) == 2 {
+				if tv, ok := info.Types[call.Args[1]]; ok && tv.Value != nil && tv.Value.String() != "0" {
+					okCap = true
+				}
+			}
+			c.check(okCap, rule, f.ID+":pool#"+itoa(n), p.Pos(as.Pos()), "the read pool has a positive constant capacity",
+				"the WAL's read pool is made with capacity `"+exprString(as.Rhs[0])+"`, not a positive constant: a value of 0 (which the options accept) gives an unbuffered channel, on which the first read of a listing blocks forever")
+			return true
+		})
+	}
+	if n == 0 && c.sharedReach == nil {
+		c.shape3(rule, "pkg/wal.New", "no assignment of connectionControl found")
+	}
+}
+
+// checkTrackerKeysFresh (C22, pooled): the functions of pkg/filetracker keep no state outside the TFile they work on:
+// none reads or writes a package-level variable (keys handed to one file's tree are not carved from memory another
+// file's goroutine is writing).
+func checkTrackerKeysFresh(c *Ctx, rule string) {
+	p := c.P
+	for _, f := range p.FuncsIn("pkg/filetracker") {
+		if f.Decl.Body == nil {
+			continue
+		}
+		info := f.Info()
+		bad := ""
+		var badPos token.Pos
+		ast.Inspect(f.Decl.Body, func(nd ast.Node) bool {
+			id, ok := nd.(*ast.Ident)
+			if !ok {
+				return true
+			}
+			if v, ok := info.Uses[id].(*types.Var); ok && v.Pkg() != nil && v.Parent() == v.Pkg().Scope() && strings.HasSuffix(v.Pkg().Path(), "pkg/filetracker") && bad == "" {
+				bad, badPos = v.Name(), id.Pos()
+			}
+			return true
+		})
+		pos := p.Pos(f.Decl.Pos())
+		if bad != "" {
+			pos = p.Pos(badPos)
+		}
+		c.check(bad == "", rule, f.ID, pos, "no package-level state",
+			f.ID+" uses the package-level variable `"+bad+"`: trackers of different files run under their own locks, so state shared by all of them is written concurrently (a marker already stored in one file's tree changes under it)")
+	}
+}
+
+// checkReadOnlyStoresFrozen (C17, pooled): once populated, the read-only mount's tables (fsEntryStore, lookupTree,
+// readDirMap) are only read: the operation handlers of readOnlyFsInternal (everything but populateFS and the insert
+// helpers it calls) assign none of them. Inode numbers are static, so an entry dropped on forget is an inode the kernel
+// is handed again by the next lookup and that no longer resolves.
+func checkReadOnlyStoresFrozen(c *Ctx, rule string) {
+	p := c.P
+	for _, f := range p.FuncsIn("pkg/fuse") {
+		if f.Decl.Body == nil || !strings.HasPrefix(f.ID, "pkg/fuse.readOnlyFsInternal.") {
+			continue
+		}
+		name := strings.TrimPrefix(f.ID, "pkg/fuse.readOnlyFsInternal.")
+		if strings.HasPrefix(name, "populate") || strings.HasPrefix(name, "insert") {
+			continue
+		}
+		bad := ""
+		var badPos token.Pos
+		ast.Inspect(f.Decl.Body, func(nd ast.Node) bool {
+			var lhs []ast.Expr
+			switch s := nd.(type) {
+			case *ast.AssignStmt:
+				lhs = s.Lhs
+			case *ast.CallExpr:
+				if calleeID(f.Info(), s) == "builtin.delete" && len(s.Args) > 0 {
+					lhs = []ast.Expr{s.Args[0]}
+				}
+			}
+			for _, l := range lhs {
+				root := l
+				for {
+					if ix, ok := ast.Unparen(root).(*ast.IndexExpr); ok {
+						root = ix.X
+						continue
+					}
+					break
+				}
+				d := describeExpr(f, root, 0)
+				if (d == "recv.fsEntryStore" || d == "recv.lookupTree" || d == "recv.readDirMap") && bad == "" {
+					bad, badPos = exprString(l), l.Pos()
+				}
+			}
+			return true
+		})
+		pos := p.Pos(f.Decl.Pos())
+		if bad != "" {
+			pos = p.Pos(badPos)
+		}
+		c.check(bad == "", rule, f.ID, pos, "the handler only reads the mount's tables",
+			f.ID+" assigns `"+bad+"`: the read-only mount's tables change after the mount was populated; an inode the kernel still knows (or is handed again by a later lookup — inode numbers are static) no longer resolves")
+	}
+}
+
+// checkEveryListedRepoScanned (C13, C14; pooled): scanContext starts a key scanner for every repository the listing
+// returned: the dispatch is guarded by nothing the purge remembers between contexts or calls (repository names are
+// unique within one context only).
+func checkEveryListedRepoScanned(c *Ctx, rule string) {
+	p := c.P
+	f := p.Func("pkg/core.scanContext")
+	info := f.Info()
+	n := 0
+	ast.Inspect(f.Decl.Body, func(nd ast.Node) bool {
+		call, ok := nd.(*ast.CallExpr)
+		if !ok || !(strings.HasSuffix(calleeID(info, call), "errgroup.Group.Go") || strings.HasSuffix(calleeID(info, call), "errgroup.Group.TryGo")) || len(call.Args) != 1 {
+			return true
+		}
+		if inner, ok := ast.Unparen(call.Args[0]).(*ast.CallExpr); !ok || calleeID(info, inner) != "pkg/core.repoKeysScanner" {
+			return true
+		}
+		n++
+		atoms, _ := atomsAt(f, f.Decl.Body, call.Pos())
+		var bad []string
+		onOptions := func(n ast.Node) bool {
+			return mentions(n, func(e ast.Expr) bool {
+				s, ok := e.(*ast.SelectorExpr)
+				if !ok {
+					return false
+				}
+				t := info.TypeOf(s.X)
+				return t != nil && strings.HasSuffix(namedTypeID(derefType(t)), "purgeOptions")
+			})
+		}
+		for lit, a := range atoms {
+			hit := onOptions(a.Expr)
+			// a flag defined from the options (`_, seen := options.m[k]`)
+			if id, ok := ast.Unparen(a.Expr).(*ast.Ident); ok && !hit {
+				if v, ok := info.Uses[id].(*types.Var); ok {
+					for _, d := range defsOfVarWithIndex(f, v) {
+						if d.rhs != nil && onOptions(d.rhs) {
+							hit = true
+						}
+					}
+				}
+			}
+			if hit {
+				bad = append(bad, lit)
+			}
+		}
+		sort.Strings(bad)
+		c.check(len(bad) == 0, rule, f.ID+":dispatch#"+itoa(n), p.Pos(call.Pos()), "every listed repository gets its scanner",
+			"scanContext starts the scanner of a repository only when `"+strings.Join(bad, " && ")+"`, a state carried by the purge options across contexts: a repository skipped on that ground is never indexed, and delete-unused removes the blobs of its bundles")
+		return true
+	})
+	if n == 0 {
+		c.shape3(rule, f.ID, "scanContext no longer dispatches repoKeysScanner through its errgroup")
+	}
+}
+
+// checkGlobKeyedByPrefix (C16, pooled): the listing snapshot KeysPrefix remembers between pages is keyed by the cleaned
+// prefix alone: no index of localFS.glob mentions the delimiter (prefix "a" with delimiter "/" and prefix "a/" with no
+// delimiter would share one entry).
+func checkGlobKeyedByPrefix(c *Ctx, rule string) {
+	p := c.P
+	f := p.Func("pkg/storage/localfs.localFS.KeysPrefix")
+	info := f.Info()
+	var delim *types.Var
+	if sig, ok := f.Obj.Type().(*types.Signature); ok && sig.Params().Len() >= 4 {
+		delim = sig.Params().At(3)
+	}
+	n := 0
+	ast.Inspect(f.Decl.Body, func(nd ast.Node) bool {
+		var idx ast.Expr
+		switch x := nd.(type) {
+		case *ast.IndexExpr:
+			if sel, ok := ast.Unparen(x.X).(*ast.SelectorExpr); ok && sel.Sel.Name == "glob" {
+				idx = x.Index
+			}
+		case *ast.CallExpr:
+			if calleeID(info, x) == "builtin.delete" && len(x.Args) == 2 {
+				if sel, ok := ast.Unparen(x.Args[0]).(*ast.SelectorExpr); ok && sel.Sel.Name == "glob" {
+					idx = x.Args[1]
+				}
+			}
+		}
+		if idx == nil {
+			return true
+		}
+		n++
+		usesDelim := delim != nil && mentions(idx, func(e ast.Expr) bool { return isVar(info, e, delim) })
+		if !usesDelim {
+			// through a local
+			if id, ok := ast.Unparen(idx).(*ast.Ident); ok {
+				if v, ok := info.Uses[id].(*types.Var); ok {
+					for _, d := range defsOfVarWithIndex(f, v) {
+						if d.rhs != nil && delim != nil && mentions(d.rhs, func(e ast.Expr) bool { return isVar(info, e, delim) }) {
+							usesDelim = true
+						}
+					}
+				}
+			}
+		}
+		c.check(!usesDelim, rule, f.ID+":glob-key#"+itoa(n), p.Pos(idx.Pos()), "the snapshot is keyed by the prefix alone",
+			"the listing snapshot is keyed by `"+exprString(idx)+"`, which involves the delimiter: two different listings (prefix \"a\" with delimiter \"/\", prefix \"a/\" without) get the same key, and one pages through the other's snapshot")
+		return true
+	})
+	if n == 0 && c.sharedReach == nil {
+		c.shape3(rule, f.ID, "KeysPrefix no longer indexes localFS.glob")
+	}
+}
+
+// checkDropDeletesWhatItLists (C14, pooled): PurgeDropReverseIndex removes the index chunks the store lists under the
+// index prefix, whatever their numbers: every key it deletes is an element of a listed page (a range variable), never a
+// name computed from a counter — chunk numbering may start anywhere (WithPurgeIndexChunkStart) and have gaps, and a
+// chunk left behind is loaded by the next build.
+func checkDropDeletesWhatItLists(c *Ctx, rule string) {
+	p := c.P
+	f := p.Func("pkg/core.PurgeDropReverseIndex")
+	info := f.Info()
+	n := 0
+	ast.Inspect(f.Decl.Body, func(nd ast.Node) bool {
+		call, ok := nd.(*ast.CallExpr)
+		if !ok || len(call.Args) != 2 || !strings.HasSuffix(calleeID(info, call), "Store.Delete") {
+			return true
+		}
+		n++
+		d := describeExpr(f, call.Args[1], 0)
+		c.check(strings.HasPrefix(d, "range("), rule, callKey(f, call), p.Pos(call.Pos()), "the chunk deleted is an element of a listed page",
+			"PurgeDropReverseIndex deletes `"+exprString(call.Args[1])+"`, a name it computed rather than one the store listed: chunks outside the assumed numbering (a start offset, a gap) survive the drop and are loaded by the next index build, so old unreferenced blobs are kept")
+		return true
+	})
+	hasList := false
+	ast.Inspect(f.Decl.Body, func(nd ast.Node) bool {
+		if call, ok := nd.(*ast.CallExpr); ok && strings.HasSuffix(calleeID(info, call), "Store.KeysPrefix") {
+			hasList = true
+		}
+		return true
+	})
+	c.check(n > 0 && hasList, rule, f.ID+":lists", p.Pos(f.Decl.Pos()), "the index chunks are listed by prefix",
+		"PurgeDropReverseIndex no longer lists the index chunks by prefix before deleting them")
+}
+
+// checkCommitWorkerAlwaysReports (C18, pooled): the per-file worker of the mutable mount's commit tells the collector
+// about every file it was given: each of its exits follows a send on one of the task's channels (the entry, or an
+// error). An exit that sends nothing makes a visible file vanish from the committed bundle while the commit succeeds.
+func checkCommitWorkerAlwaysReports(c *Ctx, rule string) {
+	p := c.P
+	f := p.Func("pkg/fuse.commitFileUpload")
+	b := p.BodyOf(f)
+	info := f.Info()
+	const none, sent = 1, 2
+	var bad []token.Pos
+	nExit := 0
+	isReport := func(n ast.Node) bool {
+		found := false
+		ast.Inspect(n, func(m ast.Node) bool {
+			if l, ok := m.(*ast.FuncLit); ok && l != b.Lit {
+				return false
+			}
+			if s, ok := m.(*ast.SendStmt); ok {
+				if fs, ok := ast.Unparen(s.Chan).(*ast.SelectorExpr); ok {
+					if t := info.TypeOf(fs.X); t != nil && strings.HasSuffix(namedTypeID(derefType(t)), "Chans") {
+						found = true
+					}
+				}
+			}
+			// a helper of the package that does the send (the select on error / done extracted into a function)
+			if call, ok := m.(*ast.CallExpr); ok {
+				if h := p.FuncOpt(calleeID(info, call)); h != nil && h.Decl.Body != nil && h != f && strings.HasPrefix(h.ID, "pkg/fuse.") {
+					ast.Inspect(h.Decl.Body, func(x ast.Node) bool {
+						if s, ok := x.(*ast.SendStmt); ok {
+							if fs, ok := ast.Unparen(s.Chan).(*ast.SelectorExpr); ok {
+								if t := h.Info().TypeOf(fs.X); t != nil && strings.HasSuffix(namedTypeID(derefType(t)), "Chans") {
+									found = true
+								}
+							}
+						}
+						return true
+					})
+				}
+			}
+			return true
+		})
+		return found
+	}
+	b.run(flowSpec{
+		entry: none,
+		node: func(n ast.Node, s uint64) uint64 {
+			if isReport(n) {
+				return sent
+			}
+			// a select whose clauses all report counts when control leaves it; approximated by its comm statements
+			// being visited as nodes of their own
+			return s
+		},
+		exit: func(_ *cfg.Block, ret *ast.ReturnStmt, s uint64) {
+			nExit++
+			if s&none != 0 {
+				pos := f.Decl.End()
+				if ret != nil {
+					pos = ret.Pos()
+				}
+				bad = append(bad, pos)
+			}
+		},
+	})
+	pos := p.Pos(f.Decl.Pos())
+	if len(bad) > 0 {
+		pos = p.Pos(bad[0])
+	}
+	c.check(nExit > 0 && len(bad) == 0, rule, f.ID, pos, "every exit of the worker follows a send of the file's entry or of an error",
+		"commitFileUpload can return without having sent the file's entry or an error to the collector: a file that is visible in the mount is left out of the committed bundle and the commit still reports success")
 }
